@@ -182,6 +182,9 @@ func judge(t *engine.T, container, curve string, s rscalar, enc string, detail f
 		return
 	}
 	accepted := err == nil && !isNil(got)
+	if s.name == "d=n-1" || s.name == "ks=N-1" {
+		t.Sample(map[string]any{"kind": "range offer", "offered_as": full, "curve_or_kind": curve, "scalar": s.name, "scalar_encoding": enc, "accepted": accepted, "input": detail()})
+	}
 	if !s.valid {
 		if accepted {
 			t.Fail("range/"+container+"/"+curve+"/"+s.cls()+"-accepted", "out-of-range scalar %s (scalar encoding: %s) is accepted and returned as %T with D=%x; %s", s.name, enc, got, scalarOf(got), detail())
@@ -269,7 +272,9 @@ func rangeCurve(t *engine.T, ci curveInfo, part string) {
 						t.Fail("range/pkcs8-enc/setup", "%v", err)
 						continue
 					}
-					judge(t, "pkcs8 via pkcs8-enc", ci.name, s, enc, func() string { return "pbes1 " + po.name + " password " + string(rangePw) + " container=" + engine.Hex(der) },
+					judge(t, "pkcs8 via pkcs8-enc", ci.name, s, enc, func() string {
+						return "pbes1 " + po.name + " password " + string(rangePw) + " container=" + engine.Hex(der)
+					},
 						func() (any, error) { g, _, err := pkcs8.ParsePrivateKey(der, rangePw); return g, err })
 				}
 			case "pem":
